@@ -5,11 +5,11 @@ from props import _family as F
 
 PROOF_MODULES = ['Jwt.Props.C16', 'Jwt.Props.C16Heap']
 PROP_MODULES = ['Jwt.Props.C16', 'Jwt.Props.C16Heap']
-PROP_FILES = ['Jwt/Props/C16.lean', 'Jwt/Props/C16Heap.lean', 'Jwt/Lemmas/Ll.lean']
-GENERATED_FACT_THEOREMS = 1
+PROP_FILES = ['Jwt/Props/C16.lean', 'Jwt/Props/C16Heap.lean', 'Jwt/Lemmas/Ll.lean', 'Jwt/Lemmas/JwksLoops.lean']
+GENERATED_FACT_THEOREMS = 7
 CHECKER_CMD = "cd lean && lake build Jwt.Props.C16 && lake env lean <generated #print axioms file>"
-LEVEL_TEXT = ("Lean theorems at two levels. List level: loads append in document order, get/count, find = first exact kid match, free removes exactly the indexed item or reports 0, free_bad removes exactly the errored items keeping order, free_all, error_any, and by induction over any operation history every item stays well-formed. Pointer level: the list functions of ll.h are TRANSLATED statement by statement from the source on every run into heap transformers with checked loads/stores (Jwt/Generated/LlOps.lean); over them the circular doubly-linked invariant is proved for init/add_tail/del, the jwks.c loops (list_for_each_entry, the _safe variant with deletion, the indexed walk, free_all) are shown to terminate within length+1 iterations, never to go through NULL or freed memory, to preserve the invariant and to compute exactly the abstract operations; C16_heap_history lifts this to every operation sequence under the allocator's contract. The hand-modelled loops are tied to jwks.c by exhaustive operation sequences under ASan/LSan with probes (count, error_any, first/last/one-past item) after every step, judged by an independent Python list.")
-ASSUMPTIONS = F.COMMON_ASSUME + ["the loops of jwks.c over the list are modelled by hand (Jwt/Ll.lean); ll.h's functions are translated; use-after-free and leaks in the compiled code are additionally witnessed by ASan/LSan on all explored sequences", 'the allocator never returns NULL-as-success or a live address (AllocOk)']
+LEVEL_TEXT = ("Lean theorems at two levels. List level: loads append in document order, get/count, find = first exact kid match, free removes exactly the indexed item or reports 0, free_bad removes exactly the errored items keeping order, free_all, error_any, and by induction over any operation history every item stays well-formed. Pointer level: the list functions of ll.h are TRANSLATED statement by statement from the source on every run into heap transformers with checked loads/stores (Jwt/Generated/LlOps.lean); over them the circular doubly-linked invariant is proved for init/add_tail/del, the jwks.c loops (list_for_each_entry, the _safe variant with deletion, the indexed walk, free_all) are shown to terminate within length+1 iterations, never to go through NULL or freed memory, to preserve the invariant and to compute exactly the abstract operations; C16_heap_history lifts this to every operation sequence under the allocator's contract. The keyring functions of jwks.c themselves (jwks_item_get/count/error_any/find_bykid/add/free/free_bad/free_all, __item_free) are TRANSLATED from the C text on every run (tie/loops.py over the mini-C parser tie/cmini.py -> Jwt/Generated/JwksLoops.lean), proved equal to the model's loops (Jwt/Lemmas/JwksLoops.lean) and the pointer-level theorems are restated for them (C16_src_*). Additionally tied to the compiled code by exhaustive operation sequences under ASan/LSan with probes (count, error_any, first/last/one-past item) after every step, judged by an independent Python list.")
+ASSUMPTIONS = F.COMMON_ASSUME + ["ll.h's functions and the keyring functions of jwks.c are translated from the source (counters as natural numbers; what hangs off an item outside the node heap -- key material, kid, JSON -- is listed as not modelled in the generated file); use-after-free and leaks in the compiled code are additionally witnessed by ASan/LSan on all explored sequences", 'the allocator never returns NULL-as-success or a live address (AllocOk)']
 TRUSTED_BASE = F.COMMON_TRUSTED
 replay = F.replay
 
